@@ -53,6 +53,13 @@ def gen_pairs(ctx):
         else:
             p = ''.join(rng.choice(ALPHA) for _ in range(rng.randint(0, 5)))
         pairs.append((t, p))
+    # patterns and texts that are also property names of the host languages' objects (a cache keyed by pattern in a plain object
+    # would find inherited members), and their wildcard variants
+    special = ['constructor', 'toString', 'valueOf', 'hasOwnProperty', '__proto__', 'prototype', 'length', '__class__', '__dict__', 'keys', 'get']
+    for w in special:
+        for p in (w, w[:-1] + '_', w[:3] + '%', '%' + w[-3:], w + '%', '_' + w[1:]):
+            for t in (w, w + 'x', w[:-1], ''):
+                pairs.append((t, p))
     # longer Unicode pairs, plus texts with line breaks (outside the theorem's hypothesis, inside the model)
     uni = 'ab%_.*\\é世\U0001F600 \t\n\r x'
     for _ in range(3000 if ctx.tier == 'quick' else 60000):
